@@ -280,6 +280,94 @@ func intact(v reflect.Value) string {
 	return ""
 }
 
+// ---- embedded structs: fields promoted from an embedded struct are NOT matched by name (an embedded
+// struct is an ordinary field named after its type), so a schema field with a promoted field's name is
+// skipped and must not touch anything; a schema field named after the embedded type fills the whole struct.
+
+type EmbInner struct {
+	ID   int64
+	Name string
+}
+
+type embOuter struct {
+	Guard0 uint64
+	Live   bool
+	Count  int32
+	EmbInner
+	Guard1 uint64
+}
+
+type embPtrOuter struct {
+	Guard0 uint64
+	Live   bool
+	*EmbInner
+	Count  int32
+	Guard1 uint64
+}
+
+func runEmbedded(c *fw.Ctx) {
+	schemas := []*ref.Schema{
+		ref.Record("E1", ref.F("ID", ref.Prim("long"))),
+		ref.Record("E2", ref.F("Name", ref.Prim("string")), ref.F("ID", ref.Prim("long")), ref.F("Count", ref.Prim("long"))),
+		ref.Record("E3", ref.F("Live", ref.Prim("boolean")), ref.F("EmbInner", ref.Record("In", ref.F("ID", ref.Prim("long")), ref.F("Name", ref.Prim("string")))), ref.F("ID", ref.Prim("long"))),
+		ref.Record("E4", ref.F("EmbInner", ref.Union(ref.Prim("null"), ref.Record("In4", ref.F("Name", ref.Prim("string")), ref.F("ID", ref.Prim("long"))))), ref.F("Name", ref.Prim("string"))),
+	}
+	for _, rs := range schemas {
+		for _, typ := range []reflect.Type{reflect.TypeOf(embOuter{}), reflect.TypeOf(embPtrOuter{})} {
+			locus := "embedded|" + typ.Name()
+			desc := fmt.Sprintf("schema %s decoded into %s (struct with an embedded struct)", rs.Print(nil), typ)
+			c.Eval(1)
+			c.Nontrivial(desc)
+			c.Begin(locus, desc)
+			var codec avro.Codec
+			var err error
+			if c.Guard(locus+"|build", desc, desc, func() {
+				var s avro.Schema
+				s, err = avro.SchemaFromString(rs.Print(nil))
+				if err == nil {
+					codec, err = s.Codec(reflect.New(typ).Elem().Interface())
+				}
+			}) {
+				continue
+			}
+			if err != nil {
+				c.Count("pairs_refused", 1)
+				continue
+			}
+			for _, d := range univ.Datums(rs, false) {
+				c.Eval(1)
+				enc := ref.Encode(rs, d)
+				dst := reflect.New(typ).Elem()
+				exp := reflect.New(typ).Elem()
+				for _, v := range []reflect.Value{dst, exp} {
+					v.FieldByName("Guard0").SetUint(can0)
+					v.FieldByName("Guard1").SetUint(can2)
+					v.FieldByName("Count").SetInt(0x5A5A5A5A)
+					v.FieldByName("Live").SetBool(true)
+				}
+				ddesc := desc + " datum " + clip(d.String())
+				det := map[string]interface{}{"schema": rs.Print(nil), "type": typ.String(), "datum": d.String()}
+				var rerr error
+				if c.Guard(locus+"|decode", ddesc, det, func() { rerr = codec.Read(avro.NewReadBuf(enc), unsafe.Pointer(dst.UnsafeAddr())) }) {
+					continue
+				}
+				if e := gv.Expect(rs, d, exp); e != nil {
+					c.Count("abstraction_undefined_not_judged", 1)
+					continue
+				}
+				if rerr != nil {
+					c.Violation("read-error|"+locus, fmt.Sprintf("Read failed: %v — %s", rerr, ddesc), det)
+					continue
+				}
+				if path, dl, vc := gv.DiffLocus(exp, dst); path != "" {
+					c.Violation("wrote-outside-field|embedded|"+dl+"|"+vc, fmt.Sprintf("struct holds %s, expected %s (difference at %s): a field the schema does not name was modified or a named one not filled — %s", clip(gv.Show(dst)), clip(gv.Show(exp)), path, ddesc), det)
+				}
+			}
+		}
+	}
+	c.Sample(map[string]interface{}{"kind": "embedded structs", "schemas": len(schemas), "targets": []string{"embOuter", "embPtrOuter"}})
+}
+
 type pairCase struct {
 	sn  snode
 	gt  gtype
@@ -504,9 +592,13 @@ func init() {
 			"the null schema stores nothing and is sound with any Go type",
 			"writes further than the guard elements / the slice capacity that happen not to crash are not observed",
 		},
-		NumCases: func(tier string) int { return (len(pairs(tier)) + chunk - 1) / chunk },
+		NumCases: func(tier string) int { return (len(pairs(tier))+chunk-1)/chunk + 1 },
 		RunCase: func(c *fw.Ctx, idx int) {
 			ps := pairs(c.Tier)
+			if idx == (len(ps)+chunk-1)/chunk {
+				runEmbedded(c)
+				return
+			}
 			for k := idx * chunk; k < (idx+1)*chunk && k < len(ps); k++ {
 				runPair(c, k, ps[k])
 			}
